@@ -8,7 +8,7 @@ from ..util import KIND, MODEL_NAMES, build, models
 
 PROPERTY = "C13"
 PYTEST_PREFIX = "C13/"
-TECHNIQUE = "runtime monitoring: complete enumeration of a malformed-argument grammar under a frame monitor (exception class, no side effect)"
+TECHNIQUE = "runtime monitoring: complete enumeration of a malformed-argument grammar under a frame monitor (exception class, no side effect), keyword and positional call forms"
 LEVEL = "fault_enumeration"
 RULE = ("A finite grammar of malformed arguments is enumerated COMPLETELY at every position of each base game: teams in "
         "{None, tuple, dict, set, str, int, generator, deque, frozenset, [], [one team]}; team i in {tuple, deque, set, None, "
